@@ -7,7 +7,7 @@ DRV=$1; FLAV=${2:-plain}
 REPO=${VERIF_REPO:-/repo}
 ROOT=$(cd "$(dirname "$0")/.." && pwd)
 BD=$("$ROOT/tools/build_repo.sh" "$FLAV")
-OUT=$ROOT/build/bin-$FLAV; mkdir -p "$OUT"
+OUT=$(dirname "$BD")/bin-$FLAV; mkdir -p "$OUT"
 SAN=""; [ "$FLAV" = asan ] && SAN="-fsanitize=address,undefined -fno-omit-frame-pointer"
 INC="-I$REPO -I$REPO/src -I$REPO/private -I$REPO/os -I$BD -I$BD/src -I$REPO/src/BlocksRuntime -I$ROOT/harness"
 DEFS="-DDISPATCH_VERIF=1 -DHAVE_CONFIG_H=1"
